@@ -6,6 +6,7 @@ the JSON-safe encoding of the run description: ints as ints, floats as repr
 strings ('1.5', 'nan', '-0.0', 'inf'), strings as str, arrays as lists.
 """
 import math
+import os
 
 import numpy as np
 
@@ -107,6 +108,7 @@ class Model(object):
                         'rows': [list(r) for r in t['rows']]} for t in tables]
         self.pairs = [[k, str(v)] for k, v in hdr]
         self.files = {}
+        self.deleted = {}
         self.bound = None
 
     def table(self, name):
@@ -114,6 +116,9 @@ class Model(object):
             if t['name'] == name.upper():
                 return t
         return None
+
+    def exists(self, name):
+        return name in self.files or (name + os.sep) in self.files
 
     def pair_keys(self):
         return [k for k, _ in self.pairs]
@@ -216,7 +221,7 @@ def _protect(s):
     return s
 
 
-def render_external(tables, hdr, style=0):
+def render_external(tables, hdr, style=0, eol='\n', final_newline=True):
     """A yanny file as somebody else's tool might have written it (the external
     actor): same conservative quoting as the library, but with variable-length
     `char x[]` declarations where a column asks for them.  Independent of pydl."""
@@ -262,4 +267,4 @@ def render_external(tables, hdr, style=0):
                 else:
                     cells.append(_protect(v))
             out.append(' '.join([t['name']] + cells))
-    return ('\n'.join(out) + '\n').encode('ascii')
+    return (eol.join(out) + (eol if final_newline else '')).encode('ascii')
